@@ -1341,8 +1341,15 @@ fn parse_abstract_literal(
     match reader.peek_lowercase()? {
         // Real
         Some(b'.') => {
+            let state_after_initial = reader.state();
             reader.set_state(state);
             let (real, mut text) = parse_real_literal(buffer, reader)?;
+            if reader.pos() < pos_after_initial {
+                // The look-ahead for the integer part went past letters that cannot be part of a
+                // real literal (e.g. `16if.f`): report them instead of turning `16` into a real literal
+                reader.set_state(state_after_initial);
+                initial?;
+            }
 
             match reader.peek()? {
                 // Exponent
